@@ -42,12 +42,20 @@ REACH = ["ShardVolumeSpec.compressed_morton_code", "ShardVolumeSpec.get_cmc",
 WORKER_TIMEOUT = {"quick": 600, "thorough": 3600}
 
 
+# sizes whose reciprocal is rounded down in binary64 (k * size * (1 / size) < k for some k)
+ODD_CHUNKS = [49, 98, 103, 107, 161, 187, 196, 197, 206, 214, 237, 239, 249, 253]
+
+
 def gen_cases(tier, seed):
     rnd = random.Random(f"C09:{seed}")
     bound = 10 if tier == "quick" else 16
     cases = []
     for grid in itertools.product(range(1, bound + 1), repeat=3):
-        cases.append({"kind": "grid", "grid": list(grid), "chunk": rnd.choice([1, 2, 3, 8, 64]),
+        # chunk sizes: the usual powers of two, and any other size (position / size is then
+        # a genuine division)
+        cases.append({"kind": "grid", "grid": list(grid),
+                      "chunk": rnd.choice([1, 2, 3, 8, 64, rnd.randint(5, 300),
+                                           rnd.randint(5, 300), rnd.choice(ODD_CHUNKS)]),
                       "rem": [rnd.random() for _ in range(3)], "mode": "all"})
     n_big = 400 if tier == "quick" else 20000
     for _ in range(n_big):
@@ -63,7 +71,9 @@ def gen_cases(tier, seed):
             grid = [rnd.randint(2 ** (e - 1) + 1, 2 ** e) for _ in range(3)]
             if rnd.random() < 0.5:
                 grid[rnd.randrange(3)] = 2 ** e
-        cases.append({"kind": "grid", "grid": grid, "chunk": rnd.choice([1, 2, 32, 64]),
+        cases.append({"kind": "grid", "grid": grid,
+                      "chunk": rnd.choice([1, 2, 32, 64, rnd.randint(5, 300),
+                                           rnd.choice(ODD_CHUNKS)]),
                       "rem": [rnd.random() for _ in range(3)], "mode": "sample",
                       "pseed": rnd.randrange(2 ** 32),
                       "npos": 200 if tier == "quick" else 600})
